@@ -196,8 +196,9 @@ class Machine:
         self.cl = claripy
         cfg = record["config"]
         self.cfg = cfg
-        self.variables = {n: w for n, w in cfg["vars"]}
-        self.order = [n for n, _ in cfg["vars"]]
+        self.variables = {v[0]: v[1] for v in cfg["vars"]}
+        self.order = [v[0] for v in cfg["vars"]]
+        self.domains = {v[0]: list(v[2]) for v in cfg["vars"] if len(v) > 2}  # string variables: finite domains
         self.handles: list[Handle] = []
         self.slots: dict[str, object] = {}
         self.trace = hashlib.sha256()
@@ -220,7 +221,7 @@ class Machine:
             # wide alphabets: the generator (dry) has no reference at all, the executor asks an independent Z3
             return NullRef() if self.dry else Z3Ref(self.variables, self.order)
         if self.base_ref is None:
-            self.base_ref = EnumRef(self.variables, self.order)
+            self.base_ref = EnumRef(self.variables, self.order, domains=self.domains)
         return self.base_ref.with_models(self.base_ref.universe)
 
     def ast(self, sp):
@@ -427,7 +428,14 @@ class Machine:
         kw = op.get("kw") or {}
         s = None if self.dry else self.new_solver(cls, kw)
         mode = "contain" if (cls in APPROX_CLASSES or cls == "SolverReplacementVSA") else "exact"
-        self.handles.append(Handle(s, self.ref0(), cls, kw, [], mode, "new"))
+        lineage = []
+        for n, dom in self.domains.items():
+            # part of what "a new solver" means in a string history: every string variable is given its finite domain
+            c = ["bor"] + [["seq", ["var", n], ["sconst", d]] for d in dom] if len(dom) > 1 else ["seq", ["var", n], ["sconst", dom[0]]]
+            lineage.append(c)
+            if s is not None:
+                s.add(self.ast(c))
+        self.handles.append(Handle(s, self.ref0(), cls, kw, lineage, mode, "new"))
         return ["h", len(self.handles) - 1]
 
     def op_branch(self, op):
@@ -672,7 +680,7 @@ class Machine:
             if sat:
                 self.bad("spurious-unsat", h, op, e=e, extra=extras)
             return ["unsat-error"]
-        vals = [int(v) for v in val]
+        vals = [_pv(v) for v in val]
         if sat is False and self._nonsymbolic(a):
             return ["concrete", vals]
         if sat is False and h.cls in ("SolverReplacement", "SolverReplacementVSA"):
@@ -715,7 +723,7 @@ class Machine:
             if sat:
                 self.bad("spurious-unsat", h, op, es=es, extra=extras)
             return ["unsat-error"]
-        tups = [tuple(int(x) for x in t) for t in val]
+        tups = [tuple(_pv(x) for x in t) for t in val]
         if sat is False and all(self._nonsymbolic(a) for a in as_):
             return ["concrete", tups]
         if sat is False and h.cls in ("SolverReplacement", "SolverReplacementVSA"):
@@ -1249,6 +1257,11 @@ class _Excluded(Exception):
 
 class _Unbuildable(Exception):
     pass
+
+
+def _pv(v):
+    """a value claripy returned: strings stay strings"""
+    return v if isinstance(v, str) else int(v)
 
 
 def _jsonable(o):
